@@ -138,6 +138,7 @@ type Guard struct {
 	arrs   [][]byte
 	sum    [32]byte
 	ro     bool
+	tight  bool // slices come without spare capacity
 }
 
 const guardPad = 16
@@ -193,6 +194,9 @@ func (g *Guard) Buf(b []byte) []byte {
 	}
 	copy(arr[guardPad:], b)
 	g.arrs = append(g.arrs, arr)
+	if g.tight {
+		return arr[guardPad : guardPad+len(b) : guardPad+len(b)]
+	}
 	return arr[guardPad : guardPad+len(b) : guardPad+len(b)+guardSpare]
 }
 
